@@ -56,8 +56,8 @@ impl Property for C19 {
         let per = match (tier, suite.slow()) {
             (Tier::Quick, false) => 12,
             (Tier::Quick, true) => 2,
-            (Tier::Thorough, false) => 250,
-            (Tier::Thorough, true) => 40,
+            (Tier::Thorough, false) => 1000,
+            (Tier::Thorough, true) => 100,
         };
         // strata: pattern (8) x size class (4: 0..2, 3..8, 9..31, 32..64)
         (0..32).map(|s| (s, per)).collect()
